@@ -92,8 +92,8 @@ def sort_fills(secs):
 
 class C02(Prop):
     id = "C02"
-    streams = [Stream("uist", "mix", quick=400, thorough=40000, tags={"F", "B", "REJECT-ADMISSION", "PANIC"},
-                      canon=sort_fills)]
+    streams = [Stream("uist", "mix", quick=400, thorough=40000, tags={"F", "B", "REJECT-ADMISSION", "PANIC"}, canon=sort_fills),
+               Stream("uist", "dup", quick=300, thorough=20000, tags={"F", "B", "REJECT-ADMISSION", "PANIC"}, canon=sort_fills)]
     determined = True
     determined_why = ("the property fixes, for a given resting book and tick quotes, exactly which orders fill, "
                       "at which price, quantity, value and date, and that the others keep resting")
@@ -144,20 +144,14 @@ class C02(Prop):
                 if len(fills) != len(expect):
                     yield (k, "fill-iff-condition", f"{len(fills)} fills reported, {len(expect)} resting orders meet their condition")
                     return
-                # quantities are unique per case: match fills to orders by (symbol, quantity), not by position
-                byq = {(f["sym"], f["qty"]): f for f in fills}
-                for (o, px, d) in expect:
-                    sh = fdec(o["sh"])
-                    f = byq.get((o["sym"], o["sh"]))
-                    if f is None:
-                        yield (k, "fill-iff-condition", f"order {o} meets its condition but has no fill")
-                        return
-                    if f["side"] != ("S" if is_sell(o["typ"]) else "B"):
-                        yield (k, "fill-identity", f"fill {f} has the wrong side for order {o}")
-                        return
-                    if fdec(f["value"]) != px * sh or f["date"] != d:
-                        yield (k, "fill-price-side-date", f"fill {f}: expected value {px * sh} date {d}")
-                        return
+                # fills against orders as multisets of (symbol, quantity, side, value, date): robust to orders
+                # that agree in symbol, type and quantity
+                want = sorted((o["sym"], o["sh"], "S" if is_sell(o["typ"]) else "B", px * fdec(o["sh"]), d) for (o, px, d) in expect)
+                got = sorted((f["sym"], f["qty"], f["side"], fdec(f["value"]), f["date"]) for f in fills)
+                if want != got:
+                    bad = [x for x in want if x not in got][:1] + [x for x in got if x not in want][:1]
+                    yield (k, "fill-price-side-date", f"fills differ from the conditioned resting orders, e.g. {bad}")
+                    return
                 rest_ids = [o["id"] for o in post]
                 for o in keep:
                     if o["id"] not in rest_ids:
@@ -328,7 +322,8 @@ class C01(Prop):
 
 class C03(Prop):
     id = "C03"
-    streams = exch_streams("mix", {"F", "A", "B", "N"}, {"F", "K", "N", "B", "X"})
+    streams = exch_streams("mix", {"F", "A", "B", "N"}, {"F", "K", "N", "B", "X"}) + \
+        exch_streams("dup", {"F", "A", "B", "N"}, {"F", "K", "N", "B", "X"}, q=200, t=20000)
     determined = False
     rule = ("random Uist and Jura histories with deletions of resting, stale, buffered and never-issued ids; non-trivial = the "
             "case contains a fill, a deletion that removed a resting order and a deletion that hit nothing; distinct op sequences")
@@ -392,15 +387,15 @@ class C03(Prop):
                     fills = uist_trades(s["F"][1:])
                     adm = uist_orders(s["A"][1:])
                     new_ids = [o["id"] for o in adm]
-                    fill_ids = []
-                    for f in fills:
-                        i = qty_to_id.get((f["sym"], f["qty"]))
-                        if i is None:
-                            yield (k, "fill-for-full-quantity-of-an-admitted-order", f"{f}")
-                            return
-                        fill_ids.append(i)
-                    for o in adm:
-                        qty_to_id[(o["sym"], o["sh"])] = o["id"]
+                    # Uist fills carry no id: the orders that left the book on this tick must be exactly the
+                    # filled ones, as multisets of (symbol, quantity, side) (robust to look-alike orders)
+                    left_orders = [o for o in book if o["id"] not in post_ids]
+                    got = sorted((f["sym"], f["qty"], f["side"]) for f in fills)
+                    want = sorted((o["sym"], o["sh"], "S" if is_sell(o["typ"]) else "B") for o in left_orders)
+                    if got != want:
+                        yield (k, "conservation", f"{len(left_orders)} orders left the book ({want[:4]}...) but the tick reported {len(fills)} fills ({got[:4]}...)")
+                        return
+                    fill_ids = [o["id"] for o in left_orders]
                     if len(adm) != len(batch):
                         yield (k, "admitted-exactly-once", f"{len(batch)} orders submitted, {len(adm)} reported admitted")
                         return
@@ -814,6 +809,7 @@ class BState:
         self.xb = uist_orders(s["XB"][1:])
         self.xk = uist_orders(s["XK"][1:])
         self.xl = int(s["XL"][0])
+        self.xtrades = uist_trades(s["XL"][1:])
         self.raw = s
 
 
@@ -956,6 +952,9 @@ class C05(Prop):
     def monitor(self, stream, annot, impl):
         tol = stream.rtol
         for k, t, costs, prev, cur in walk_broker(annot, impl):
+            if cur.trades != cur.xtrades:
+                yield (k, "log-holds-the-executed-trades-in-order", f"broker log {[(x['sym'], x['side'], fdec(x['qty'])) for x in cur.trades][-4:]} vs exchange log {[(x['sym'], x['side'], fdec(x['qty'])) for x in cur.xtrades][-4:]}")
+                return
             net = {}
             for x in cur.trades:
                 net[x["sym"]] = net.get(x["sym"], Fraction(0)) + (fr(x["qty"]) if x["side"] == "B" else -fr(x["qty"]))
@@ -1080,6 +1079,20 @@ class C09(Prop):
                 if t[0] in ("DEP", "WD", "SEND") and (cur.cash, cur.hold, cur.pend, cur.xb) != (prev.cash, prev.hold, prev.pend, prev.xb):
                     yield (k, "failed-refuses-without-effect", f"{' '.join(t)} changed state in Failed")
                     return
+                if t[0] == "CHECK" and cur.ev != ["PANIC"]:
+                    # fills in flight are still reconciled into cash and holdings
+                    new = cur.xtrades[len(prev.xtrades):]
+                    want = fr(prev.cash) + sum((fr(x["value"]) if x["side"] == "S" else -fr(x["value"])) for x in new)
+                    if not close(fr(cur.cash), want, 1e-9, float(abs(fr(prev.cash)) + sum(abs(fr(x["value"])) for x in new))):
+                        yield (k, "failed-still-reconciles-fills", f"Failed broker: {len(new)} trades executed on this tick, cash {fdec(prev.cash)} -> {fdec(cur.cash)}, expected {float(want)}")
+                        return
+                    for sym in {x["sym"] for x in new}:
+                        d = sum((fr(x["qty"]) if x["side"] == "B" else -fr(x["qty"])) for x in new if x["sym"] == sym)
+                        before = fr(prev.hold[sym]) if sym in prev.hold else 0
+                        after = fr(cur.hold[sym]) if sym in cur.hold else 0
+                        if not close(after, before + d, 1e-9, 1.0):
+                            yield (k, "failed-still-reconciles-fills", f"Failed broker: holdings of {sym} {float(before)} -> {float(after)}, executed net {float(d)}")
+                            return
             elif t[0] == "CHECK" and cur.ev != ["PANIC"] and costs_wf(costs) and all(fdec(v) >= 0 for v in cur.hold.values()):
                 want = fdec(cur.cash) < 0.0 and (fdec(cur.cash) * -1.0 + 1000.0) > fdec(cur.lv)
                 if (cur.state == "Failed") != want:
